@@ -200,6 +200,9 @@ impl Check for C10 {
 			if let Err(p) = catch(|| mid_iteration(ctx)) {
 				ctx.fail(format!("panic: {} :: callback inside a decoder iteration", p), "");
 			}
+			if let Err(p) = catch(|| at_the_end(ctx)) {
+				ctx.fail(format!("panic: {} :: position exactly at the end of the stream", p), "");
+			}
 		} else if idx >= sc.len() as u64 + E2_CASES + STARVE_CASES + EOF_CASES {
 			pacer::set_mode(pacer::Mode::Pacer);
 			let w = idx - sc.len() as u64 - E2_CASES - STARVE_CASES - EOF_CASES;
@@ -1207,6 +1210,85 @@ fn mid_callback(looping: bool, ahead: u64, sliced: bool, ctx: &mut Ctx) {
 // ---------------------------------------------------------------------------------------------
 // the mirror image of the burst family: the DECODER is stopped in the middle of a loop iteration (at its n-th sync point)
 // and one audio callback runs there. Together the two families are the preemption-bound-1 slice of decoder x audio.
+
+/// the playback position lands exactly on the end of the stream while the decoder thread is alive: the sound finishes, the
+/// thread ends, nothing spins
+fn at_the_end(ctx: &mut Ctx) {
+	for which in 0..4 {
+		for n in [12usize, 1, 20000] {
+			if (which == 3) != (n == 20000) && which != 0 {
+				continue;
+			}
+			if which == 0 && n == 20000 {
+				continue;
+			}
+			ctx.evals += 1;
+			let what = ["start_position(duration)", "start_position(duration), slice = the whole audio", "seek_to(duration) right after play (before the first callback)", "seek_to(duration) after two callbacks on a stream longer than the decoder ring"][which];
+			let desc = format!("{}-frame scripted stream at {} Hz, {}; 6 callbacks of 4 frames with the decoder free to run", n, SR, what);
+			let mut m = rig::manager(SR, 4, rig::caps(2), MainTrackBuilder::new());
+			let first = pacer::count();
+			let (dec, stats) = ScriptedDecoder::new((0..n).map(|i| Frame::from_mono(((i % 13) + 1) as f32 / 32.0)).collect(), SR, vec![2, 1, 3], 1);
+			let mut data = StreamingSoundData::from_decoder(dec);
+			if which <= 1 {
+				data = data.start_position(kira::sound::PlaybackPosition::Samples(n));
+			}
+			if which == 1 {
+				data = data.slice(Region { start: kira::sound::PlaybackPosition::Samples(0), end: kira::sound::EndPosition::Custom(kira::sound::PlaybackPosition::Samples(n)) });
+			}
+			let Ok(mut h) = m.play(data) else {
+				ctx.count("at_the_end_refused_at_play", 1);
+				continue;
+			};
+			let mut buf = vec![0.0f32; 8];
+			let mut hung = false;
+			let mut step = |k: u64, hung: &mut bool| {
+				let t0 = std::time::Instant::now();
+				let timed_out = std::cell::Cell::new(false);
+				pacer::step_or(first, k, &|| {
+					timed_out.set(t0.elapsed() > std::time::Duration::from_millis(1500));
+					timed_out.get()
+				});
+				*hung |= timed_out.get();
+			};
+			if which == 2 {
+				h.seek_to(n as f64 / SR as f64);
+			}
+			for cb in 0..8 {
+				if which == 3 && cb == 2 {
+					h.seek_to(n as f64 / SR as f64);
+				}
+				step(12, &mut hung);
+				if hung {
+					break;
+				}
+				rig::callback(&mut m, &mut buf, 4, 2);
+			}
+			let st = h.state();
+			if hung {
+				ctx.fail("the decoder thread never finishes a decode-loop iteration (it spins inside frame_at_index / the decoder) :: position exactly at the end of the stream", format!("{}; state {:?}, decode calls so far {}", desc, st, stats.decode_calls.load(Ordering::SeqCst)));
+				stats.abort.store(true, Ordering::SeqCst);
+			} else {
+				if st != PlaybackState::Stopped {
+					ctx.fail("the sound is not Stopped long after the position reached the end :: position exactly at the end of the stream", format!("{}; state {:?}", desc, st));
+				}
+				// the decoder was never asked for anything beyond its data: no error to report
+				if let Some(e) = h.pop_error() {
+					ctx.fail("a stream whose position reaches its end reports a decode error (the decoder was driven past its data) :: position exactly at the end of the stream", format!("{}; error {:?}; decode calls {}", desc, e, stats.decode_calls.load(Ordering::SeqCst)));
+				}
+				step(3, &mut hung);
+				if !pacer::exited(first) {
+					ctx.fail("decoder thread still alive long after the sound finished :: position exactly at the end of the stream", format!("{}; state {:?}", desc, st));
+				}
+			}
+			ctx.nontrivial_extra += 1;
+			ctx.state(hash64(&("at the end", which, n)));
+			h.stop(tw(0.0, SR));
+			rig::callback(&mut m, &mut buf, 1, 2);
+			drop(m);
+			crate::probes::reap_decoder(first, &stats);
+		}
+	}
+}
 
 fn mid_iteration(ctx: &mut Ctx) {
 	const N: usize = 6;
